@@ -29,7 +29,8 @@ impl<'a> BerDecoder<'a> for SnmpInt {
             .map(|x| *x as i64)
             .reduce(|acc, x| (acc << 8) | x)
             .unwrap_or(0);
-        Ok(SnmpInt(if i[0] & 0x80 == 0 {
+        Ok(SnmpInt(if i[0] & 0x80 == 0 || h.length >= 8 {
+            // Positive, or all 64 bits are already in place
             v
         } else {
             // Negative number
